@@ -494,7 +494,9 @@ Definition check_c27 (fs fscen : fixture) (acts : list action) (impl : list (lis
             else if polls_eqb impl own && tr_ok then 0
               (* the code keeps the errors per event here: the machine with the shared
                  list replaced by the per-event lists (the repaired code) agrees *)
-            else verdict false (polls_eqb today own) (polls_eqb impl own) (if st_overlap st then 1 else 0)
+            else verdict false (polls_eqb today own) false 0
+              (* neither today's machine nor the per-event specification: never the known class
+                 (that class is "impl = today's machine, which deviates on this schedule") *)
       | None => 9
       end
   | _, _ => 9
